@@ -10,11 +10,22 @@ use crate::pdu::{b64, pkcs8};
 use crate::util::*;
 
 /// canonical JSON of the two payloads, written by hand (independent of every library)
-fn payload_canonical(p: &str) -> &'static str {
+fn payload_canonical(p: &str) -> String {
+    let z = if BIG.with(|b| b.get()) { format!(r#","z":"{}""#, "a".repeat(70000)) } else { String::new() };
     match p {
-        "p0" => r#"{"a":0,"b":"const","n":{"x":[1,{"y":null}]}}"#,
-        _ => r#"{"a":1,"b":"const","n":{"x":[1,{"y":null}]}}"#,
+        "p0" => format!(r#"{{"a":0,"b":"const","n":{{"x":[1,{{"y":null}}]}}{z}}}"#),
+        _ => format!(r#"{{"a":1,"b":"const","n":{{"x":[1,{{"y":null}}]}}{z}}}"#),
     }
+}
+
+/// The key version as it appears in the key ID: key "2" has a long one (no length limit applies to signing key versions here).
+fn version_of(key: &str) -> String {
+    if key == "2" { format!("2{}", "_long".repeat(50)) } else { key.to_owned() }
+}
+
+thread_local! {
+    /// whether the object under test carries a large member (canonical JSON beyond 65535 bytes)
+    static BIG: std::cell::Cell<bool> = const { std::cell::Cell::new(false) };
 }
 
 fn seed_of(key: &str) -> u8 {
@@ -49,6 +60,9 @@ fn build_with(obj: &Value, damage: usize) -> CanonicalJsonObject {
     o.insert("a".into(), cj(json!(if obj["payload"] == "p0" { 0 } else { 1 })));
     o.insert("b".into(), cj(json!("const")));
     o.insert("n".into(), cj(json!({"x": [1, {"y": null}]})));
+    if BIG.with(|b| b.get()) {
+        o.insert("z".into(), cj(json!("a".repeat(70000))));
+    }
     match obj["unsigned"].as_str().unwrap() {
         "u0" => { o.insert("unsigned".into(), cj(json!({"age": 1}))); }
         "u1" => { o.insert("unsigned".into(), cj(json!({"age": 2, "x": "y"}))); }
@@ -77,7 +91,7 @@ fn build_with(obj: &Value, damage: usize) -> CanonicalJsonObject {
                                         _ => sig = SigningKey::from_bytes(&[seed_of(slot["key"].as_str().unwrap()); 32]).sign(b"{\"some\":\"other content\"}").to_bytes().to_vec(),
                                     }
                                 }
-                                set.insert(format!("ed25519:{k}"), cj(json!(b64(&sig))));
+                                set.insert(format!("ed25519:{}", version_of(k)), cj(json!(b64(&sig))));
                             }
                         }
                         if ent["alien"].as_bool().unwrap() {
@@ -100,7 +114,7 @@ fn run_case(c: &Value) -> Value {
     match c["call"].as_str().unwrap() {
         "sign" => {
             let key = c["key"].as_str().unwrap();
-            let kp = Ed25519KeyPair::from_der(&pkcs8(seed_of(key)), key.to_owned()).unwrap();
+            let kp = Ed25519KeyPair::from_der(&pkcs8(seed_of(key)), version_of(key)).unwrap();
             let mut obj = pre.clone();
             let r = guard(|| sign_json(c["entity"].as_str().unwrap(), &kp, &mut obj).is_ok());
             let want = build(&c["post"]);
@@ -118,7 +132,7 @@ fn run_case(c: &Value) -> Value {
                 for (k, which) in ks.as_object().unwrap() {
                     let w = which.as_str().unwrap();
                     if w != "missing" {
-                        set.insert(format!("ed25519:{k}"), Base64::new(ref_pub(w)));
+                        set.insert(format!("ed25519:{}", version_of(k)), Base64::new(ref_pub(w)));
                     }
                 }
                 map.insert(e.clone(), set);
@@ -144,6 +158,16 @@ pub fn replay(_args: &[String]) {
     let mut out = Out::new();
     for_each_case(|i, c| {
         let mut o = run_case(&c);
+        // the same case on an object whose canonical form exceeds 65535 bytes (no size limit applies to signed JSON objects);
+        // the stricter of the two answers is reported
+        if i % 7 == 0 {
+            BIG.with(|b| b.set(true));
+            let big = run_case(&c);
+            BIG.with(|b| b.set(false));
+            if big != o {
+                o = json!({"res": format!("big-object-differs: {} vs {}", big["res"], o["res"]), "small": o, "big": big});
+            }
+        }
         o["i"] = json!(i);
         out.put(&o);
     });
